@@ -24,6 +24,60 @@ from .mir import expr_str, strip_generics, callee_name, op_place
 MAX_PATHS = 4000
 
 
+_PRIM = {"u8": (1, False), "i8": (1, True), "u16": (2, False), "i16": (2, True), "u32": (4, False), "i32": (4, True), "u64": (8, False), "i64": (8, True),
+         "usize": (8, False), "isize": (8, True), "bool": (1, False)}
+
+
+def _decode(ix, ty, raw):
+    """The value of type `ty` stored (little-endian) in `raw`: an integer / bool, a struct of such (by the layout the
+    compiler chose), or a field-less enum stored in one byte; None when the type is not one this reader decodes."""
+    if ty in _PRIM:
+        size, signed = _PRIM[ty]
+        if len(raw) < size:
+            return None
+        return ("const", int.from_bytes(raw[:size], "little", signed=signed), ty)
+    a = ix.adts.get(ty)
+    if a is None:
+        return None
+    lay = a.get("layout")
+    if a["kind"] == "Struct" and lay and len(a["variants"]) == 1:
+        fs = a["variants"][0]["fields"]
+        vals = []
+        for f, off in zip(fs, lay["offsets"]):
+            v = _decode(ix, f["ty"], raw[off:])
+            if v is None:
+                return None
+            vals.append(v)
+        return ("agg", ty, a["variants"][0]["name"], tuple(vals), tuple(f["name"] for f in fs))
+    return None
+
+
+def _sizeof(ix, ty):
+    if ty in _PRIM:
+        return _PRIM[ty][0]
+    a = ix.adts.get(ty)
+    if a is not None and a.get("layout"):
+        return a["layout"]["size"]
+    return None
+
+
+def decode_const_elem(ix, path, idx):
+    """Element `idx` of the crate's `const path: [T; N]`, decoded from the bytes the compiler evaluated it to."""
+    c = ix.consts.get(path)
+    if c is None or "bytes" not in c:
+        return None
+    import re
+    m = re.match(r"^\[(.+); (\d+)\]$", c.get("ty") or "")
+    if not m:
+        return None
+    ety, n = m.group(1), int(m.group(2))
+    size = _sizeof(ix, ety)
+    raw = bytes.fromhex(c["bytes"])
+    if size is None or not (0 <= idx < n) or len(raw) != size * n:
+        return None
+    return _decode(ix, ety, raw[idx * size:(idx + 1) * size])
+
+
 def enum_val(ix, adt, variant, payload=()):
     a = ix.adts[adt]
     fields = ()
@@ -158,6 +212,8 @@ class Cases:
             ix_ = self.local(st, el["i"]) if "i" in el else ("const", el["ci"], "usize")
             if e[0] == "agg" and e[1] == "array" and ix_[0] == "const" and isinstance(ix_[1], int) and 0 <= ix_[1] < len(e[3]):
                 e = e[3][ix_[1]]  # a table built in this case, read at a known slot
+            elif e[0] == "item" and ix_[0] == "const" and isinstance(ix_[1], int) and decode_const_elem(self.ix, e[1], ix_[1]) is not None:
+                e = decode_const_elem(self.ix, e[1], ix_[1])   # a `const TABLE: [T; N]` of the crate, read at a known slot
             else:
                 e = ("index", e, ix_)
         elif "sub" in el:
@@ -363,6 +419,13 @@ class Cases:
                         return r
                 if name in ("unwrap_or", "or") and len(args) == 2:
                     return x if name == "unwrap_or" else recv
+        # `a != b` on a type that only defines `eq` (the derive): the provided `ne` is `!eq`
+        if callee.endswith("std::cmp::PartialEq>::ne") and callee not in self.ix.bodies and self.depth < 3 and len(args) == 2:
+            eqk = callee[:-2] + "eq"
+            if eqk in self.ix.bodies and all(is_known(mir.strip_refs(a)) for a in args):
+                r = self.pure_call(("fn", eqk), list(args))
+                if r is not None and r[0] == "const" and r[1] in (0, 1):
+                    return ("const", 1 - r[1], "bool")
         # a crate function (or closure) whose arguments are all known and which computes a value without touching anything
         if self.depth < 3 and callee in self.ix.bodies and args and all(is_known(mir.strip_refs(a)) for a in args):
             r = self.pure_call(("fn", callee), list(args))
